@@ -111,3 +111,26 @@ def base_shapes(cs):
     B["Sphere"] = [("s1", lambda: cs.Sphere(1.3, (0.7, -1.1, 0.4))), ("s2", lambda: cs.Sphere(25.0, (-40.0, 3.0, 11.0)))]
     B["Ellipsoid"] = [("l1", lambda: cs.Ellipsoid(1.3, 0.4, 0.9, (0.7, -1.1, 0.4))), ("l2", lambda: cs.Ellipsoid(0.2, 2.5, 2.5, (3.0, 3.5, -1.0)))]
     return B
+
+
+def zero_d_shapes(cs):
+    """{class name: constructor} - the classes that keep scalar parameters, built with those parameters handed over as
+    zero-dimensional arrays (a value picked out of an array with [()], np.asarray(x)): the shape then keeps an *array*, and
+    any arithmetic the class does on "its number" may happen in place."""
+    z = lambda x: np.array(float(x))  # noqa: E731
+    return {"Circle": lambda: cs.Circle(z(1.3), (0.7, -1.1, 0.0)), "Sphere": lambda: cs.Sphere(z(1.3), (0.7, -1.1, 0.4)),
+            "Ellipse": lambda: cs.Ellipse(z(1.3), z(0.4), (0.7, -1.1, 0.0)), "Ellipsoid": lambda: cs.Ellipsoid(z(1.3), z(0.4), z(0.9), (0.7, -1.1, 0.4)),
+            "ConvexSpheropolygon": lambda: cs.ConvexSpheropolygon(polygons("quad-xy")[0], z(0.4), normal=polygons("quad-xy")[1]),
+            "ConvexSpheropolyhedron": lambda: cs.ConvexSpheropolyhedron(convex_points("chiral7"), z(0.3))}
+
+
+ZERO_D = "parameters-as-0d-arrays"
+
+
+def with_zero_d(cs):
+    """base_shapes plus, at the end of each list concerned, the zero-dimensional-parameter variant (label ZERO_D)."""
+    B = {k: list(v) for k, v in base_shapes(cs).items()}
+    for cname, ctor in zero_d_shapes(cs).items():
+        if cname in B:
+            B[cname].append((ZERO_D, ctor))
+    return B
